@@ -173,3 +173,28 @@ Proof.
   induction results as [|a t IH]; intro baseline; cbn [map compare_baseline]; [reflexivity|].
   rewrite remove_first_relocate. destruct (remove_first issue_eqb a baseline); cbn [map]; rewrite IH; reflexivity.
 Qed.
+
+(* ----- the filter only ever withholds: what it reports is a subsequence of the current findings, for any equality ----- *)
+Inductive subseq {A} : list A -> list A -> Prop :=
+| ss_nil : subseq [] []
+| ss_skip x l l' : subseq l l' -> subseq l (x :: l')
+| ss_take x l l' : subseq l l' -> subseq (x :: l) (x :: l').
+
+Theorem reported_is_subsequence (eqb : bissue -> bissue -> bool) results :
+  forall baseline, subseq (compare_baseline eqb baseline results) results.
+Proof.
+  induction results as [|a t IH]; intro baseline; cbn [compare_baseline]; [constructor|].
+  destruct (remove_first eqb a baseline) as [rem|]; [apply ss_skip | apply ss_take]; apply IH.
+Qed.
+
+Lemma subseq_In {A} (l l' : list A) x : subseq l l' -> In x l -> In x l'.
+Proof. induction 1 as [|y l l' _ IH|y l l' _ IH]; intro H; [exact H | right; auto | destruct H as [->|H]; [left; auto | right; auto]]. Qed.
+
+Theorem never_invents (eqb : bissue -> bissue -> bool) baseline results u :
+  In u (compare_baseline eqb baseline results) -> In u results.
+Proof. apply subseq_In, reported_is_subsequence. Qed.
+
+(* an empty baseline withholds nothing *)
+Theorem empty_baseline_reports_all (eqb : bissue -> bissue -> bool) results :
+  compare_baseline eqb [] results = results.
+Proof. induction results as [|a t IH]; cbn [compare_baseline remove_first]; [reflexivity | rewrite IH; reflexivity]. Qed.
